@@ -185,6 +185,11 @@ func (c *Crew) SetMachine(ctx context.Context, mid string, src *crew.SpecSource,
 	}
 
 	if state != nil {
+		if have {
+			// Replace the state of an existing machine (and not
+			// only report the replacement as a change).
+			m.State = DefaultState(state.Copy())
+		}
 		c.change(mid).State = state
 	}
 
